@@ -85,10 +85,18 @@ def gen_params(rnd):
     return p
 
 
-def check_case(objs, is_gt, p, ego, results=None):
+def check_case(objs, is_gt, p, ego, results=None, earlier_ego=None):
     from perception_eval.evaluation.matching.objects_filter import filter_objects, filter_object_results
     from perception_eval.evaluation.result.object_result import DynamicObjectWithPerceptionResult
     rp = real_params(p, ego)
+    if ego is not None and earlier_ego is not None:
+        # the registry handed to the filter has a history: it held another ego pose, answered a map -> ego lookup, and was then given the current pose
+        # (what interpolating a frame does to the copy of a key frame's registry); what counts is the pose it holds now
+        from perception_eval.common.schema import FrameID
+        tf = build.transforms(earlier_ego)
+        tf.transform((FrameID.MAP, FrameID.BASE_LINK), (1.0, 2.0, 0.0))
+        tf[(FrameID.BASE_LINK, FrameID.MAP)] = build.ego_matrix(ego)
+        rp["transforms"] = tf
     real = [build.obj3d(d) for d in objs]
     before = list(real)
     out = filter_objects(real, is_gt, **rp)
@@ -149,19 +157,20 @@ def search(item, seed):
         p = gen_params(rnd)
         is_gt = rnd.random() < 0.5
         results = [(rnd.randrange(len(objs)), rnd.choice([None] + list(range(len(objs))))) for _ in range(rnd.randint(0, 3))]
+        earlier = dict(x=ego["x"] + rnd.choice([6.0, -40.0]), y=ego["y"] + 3.0, yaw=ego["yaw"] + 1.0) if (ego and rnd.random() < 0.3) else None
         try:
-            why = check_case(objs, is_gt, p, ego, results)
+            why = check_case(objs, is_gt, p, ego, results, earlier)
         except Exception as ex:
             why = f"raised {type(ex).__name__}: {ex}"
         if why:
-            return dict(function="filter", input=dict(objects=objs, is_gt=is_gt, params=p, ego=ego, results=results), observed=why)
+            return dict(function="filter", input=dict(objects=objs, is_gt=is_gt, params=p, ego=ego, results=results, earlier_ego=earlier), observed=why)
     return None
 
 
 def replay(payload):
     i = payload["input"]
     try:
-        why = check_case(i["objects"], i["is_gt"], i["params"], i["ego"], [tuple(r) for r in i["results"]])
+        why = check_case(i["objects"], i["is_gt"], i["params"], i["ego"], [tuple(r) for r in i["results"]], i.get("earlier_ego"))
     except Exception as ex:
         why = f"raised {type(ex).__name__}: {ex}"
     return (why is None, why or "ok")
